@@ -30,6 +30,9 @@ def parseExpr : Nat → List String → Option (Expr × List String)
       let (a, r) ← parseExpr f rest
       let (b, r) ← parseExpr f r
       pure (.add a b, r)
+    else if t == "unt" then
+      -- one `untrack` scope in the implementation; every read inside is already written `U<id>`
+      parseExpr f rest
     else if t == "seq" then do
       let (a, r) ← parseExpr f rest
       let (b, r) ← parseExpr f r
@@ -105,6 +108,12 @@ def effectRuns (p : Prog) (log : List Ev) : String :=
     | _ => acc) []
   ";".intercalate (runs.map fun (i, vs) => s!"{i}:" ++ ",".intercalate (vs.map toString))
 
+/-- does node `x` (by the tracked reads of its last run) depend on signal `sig`? -/
+def dependsOn : Nat → State → Nat → Nat → Bool
+  | 0, _, _, _ => false
+  | f + 1, s, x, sig =>
+    x == sig || ((s.get x).kind != .sig && (s.get x).seen.any fun (y, _, _) => dependsOn f s y sig)
+
 def wokeList (log : List Ev) : List Nat :=
   log.filterMap fun e => match e with | .woke i => some i | _ => none
 
@@ -152,6 +161,25 @@ def stepLine (m : Mode) (d : DState) (line : String) : DState × String :=
   match words line with
   | ["case", n] => ({}, s!"case {n}")
   | ["mode", _] => (d, "ok")
+  | ["wrap", _] => (d, "ok")   -- reads go through Signal::from / Signal::derive: transparent for the model
+  | [op] =>
+    if op == "pauseall" || op == "resumeall" then
+      -- `Owner::pause` / `resume` on the root owner reaches every effect's owner
+      let d := clearLog d
+      let effs := (List.range d.prog.length).filter fun i =>
+        (match d.prog[i]? with | some (.eff _) => true | _ => false) && (d.s.get i).alive
+      let s := effs.foldl (fun s e =>
+        (step d.prog s (if op == "pauseall" then Op.pause e else Op.resume e)).1) d.s
+      let pausedAt := if op == "pauseall" then
+          effs.map (fun e => (e, (s.get e).runs)) ++ d.pausedAt.filter (fun x => !effs.contains x.1)
+        else d.pausedAt
+      let d := { d with s := s, pausedAt := pausedAt }
+      (d, afterOp m d none)
+    else if op == "idle" then
+      let d := clearLog d
+      let d := { d with s := (step d.prog d.s .idle).1 }
+      (d, afterOp m d none)
+    else (d, "bad-op")
   | "sig" :: [v] =>
     match parseInt v with
     | some v =>
@@ -191,6 +219,9 @@ def stepLine (m : Mode) (d : DState) (line : String) : DState × String :=
       match d.prog[id]? with
       | some (.sig _) =>
         let d := clearLog d
+        -- the pause excuse covers only changes made during the pause
+        let d := { d with pausedAt := d.pausedAt.filter fun (e, _) =>
+          !(!(d.s.get e).paused && dependsOn (fuelFor d.prog) d.s e id) }
         let d := { d with s := (step d.prog d.s (.set id v)).1 }
         (d, afterOp m d none)
       | _ => (d, "bad-op")
@@ -215,10 +246,6 @@ def stepLine (m : Mode) (d : DState) (line : String) : DState × String :=
       let d := { d with s := (step d.prog d.s (.poll i)).1 }
       (d, (if m == .c02 then s!"polled={polled} " else "") ++ afterOp m d none)
     | none => (d, "bad-op")
-  | ["idle"] =>
-    let d := clearLog d
-    let d := { d with s := (step d.prog d.s .idle).1 }
-    (d, afterOp m d none)
   | [op, e] =>
     if op == "pause" || op == "resume" || op == "dispose" then
       match e.toNat? with
